@@ -94,13 +94,67 @@ theorem mpSyncG_act {rf : Rat → Rat → Rat → Rat} {evs out : List MEv} (hac
       cases h
       exact ⟨c, evs', rfl, hm, rfl⟩
 
-theorem sortOut_perm (l : List MEv) : (sortOut l).Perm l := List.mergeSort_perm _ _
+theorem insertTs_perm (e : MEv) : ∀ l : List MEv, (insertTs e l).Perm (e :: l)
+  | [] => by simp [insertTs]
+  | x :: xs => by
+    simp only [insertTs]
+    split
+    · exact List.Perm.refl _
+    · exact ((insertTs_perm e xs).cons x).trans (List.Perm.swap e x xs)
 
-theorem sortOut_sorted (l : List MEv) : (sortOut l).Pairwise (fun a b => a.ts ≤ b.ts) := by
-  have := List.pairwise_mergeSort (le := fun (a b : MEv) => decide (a.ts ≤ b.ts))
-    (by intro a b c; simp only [decide_eq_true_eq]; exact Rat.le_trans)
-    (by intro a b; simp only [Bool.or_eq_true, decide_eq_true_eq]; exact Rat.le_total) l
-  simpa [sortOut] using this
+theorem sortOut_perm : ∀ l : List MEv, (sortOut l).Perm l
+  | [] => by simp [sortOut]
+  | x :: xs => by
+    have ih := sortOut_perm xs
+    simp only [sortOut, List.foldr_cons] at ih ⊢
+    exact (insertTs_perm x _).trans (ih.cons x)
+
+theorem insertTs_sorted (e : MEv) : ∀ l : List MEv, l.Pairwise (fun a b => a.ts ≤ b.ts) →
+    (insertTs e l).Pairwise (fun a b => a.ts ≤ b.ts)
+  | [], _ => by simp [insertTs]
+  | x :: xs, h => by
+    simp only [insertTs]
+    rw [List.pairwise_cons] at h
+    split
+    · rename_i hle
+      refine List.Pairwise.cons ?_ (List.Pairwise.cons h.1 h.2)
+      intro y hy
+      rcases List.mem_cons.mp hy with rfl | hy
+      · exact hle
+      · exact Rat.le_trans hle (h.1 y hy)
+    · rename_i hnle
+      refine List.Pairwise.cons ?_ (insertTs_sorted e xs h.2)
+      intro y hy
+      rcases List.mem_cons.mp ((insertTs_perm e xs).subset hy) with rfl | hy
+      · rcases Rat.le_total (a := x.ts) (b := y.ts) with h1 | h1
+        · exact h1
+        · exact absurd h1 hnle
+      · exact h.1 y hy
+
+theorem sortOut_sorted : ∀ l : List MEv, (sortOut l).Pairwise (fun a b => a.ts ≤ b.ts)
+  | [] => by simp [sortOut]
+  | x :: xs => by
+    have ih := sortOut_sorted xs
+    simp only [sortOut, List.foldr_cons] at ih ⊢
+    exact insertTs_sorted x _ ih
+
+/-- sorting commutes with any relabelling that keeps the keys -/
+theorem insertTs_map (f : MEv → MEv) (hf : ∀ e, (f e).ts = e.ts) (e : MEv) :
+    ∀ l : List MEv, insertTs (f e) (l.map f) = (insertTs e l).map f
+  | [] => by simp [insertTs]
+  | x :: xs => by
+    simp only [List.map_cons, insertTs, hf]
+    split
+    · simp
+    · simp [insertTs_map f hf e xs]
+
+theorem sortOut_map (f : MEv → MEv) (hf : ∀ e, (f e).ts = e.ts) :
+    ∀ l : List MEv, sortOut (l.map f) = (sortOut l).map f
+  | [] => by simp [sortOut]
+  | x :: xs => by
+    have ih := sortOut_map f hf xs
+    simp only [sortOut, List.map_cons, List.foldr_cons] at ih ⊢
+    rw [ih, insertTs_map f hf]
 
 /-! ### when `drain` takes no action -/
 
